@@ -1,6 +1,8 @@
 """Monitors attached to real Tree objects.  Read-only: private dictionaries are only read with .get / membership
 (``Tree._data`` is a defaultdict: indexing a missing key would mutate the tree and make the monitor the defect)."""
 
+import contextlib
+
 import numpy as np
 import rustworkx as rx
 
@@ -165,12 +167,37 @@ class Window(object):
         return False
 
 
+@contextlib.contextmanager
+def unmemoised():
+    """Within the block the tree code computes the children recursion and the pairwise convolution without its
+    memoisation (the undecorated originals), so a tree built here is from scratch in the strict sense: nothing is
+    reused from earlier calls in this process.  The caches themselves are left as they are."""
+    import phyclone.tree.tree_node as tn
+    import phyclone.tree.utils as tu
+
+    saved = (tu._convolve_two_children, tu.compute_log_S, tn.compute_log_S)
+    conv_plain = saved[0].__wrapped__
+    s_orig = saved[1].__wrapped__
+
+    def s_plain(children):
+        return s_orig(np.array(children, order="C"))
+
+    tu._convolve_two_children = conv_plain
+    tu.compute_log_S = s_plain
+    tn.compute_log_S = s_plain
+    try:
+        yield
+    finally:
+        tu._convolve_two_children, tu.compute_log_S, tn.compute_log_S = saved
+
+
 def rebuild_equal(tree, data_by_idx, tree_dists, rel=1e-8, extra=0.0, stats=None):
     """C06 oracle: every clone's vectors, the root vector (if it has a child), both joint densities, ==/hash equal
     those of a tree freshly built bottom-up from the abstract form.  Returns max deviation; raises Broken.
     Deviations confined to entries outside the C02 underflow window are counted in stats, not reported."""
     forest, names = gen.tree_to_forest(tree)
-    fresh, fnames = gen.build_tree(forest, data_by_idx, grid_size=tree.grid_size)
+    with unmemoised():
+        fresh, fnames = gen.build_tree(forest, data_by_idx, grid_size=tree.grid_size)
     a = node_vectors(tree)
     b = node_vectors(fresh)
     worst = 0.0
